@@ -18,9 +18,10 @@ MAXLEN = 40
 SYS_BUDGET = 1000000
 
 
-def explore(nargs, cfg, funcs, index, enums, order=None):
+def explore(nargs, cfg, funcs, index, enums, order=None, sys_as_s=False):
     """cfg: dict(n=bool, L=bool, s=bool, x=bool, r=bool); order: the limiter chain as do_xargs installs it (c06_wiring reads it off the MIR),
-    e.g. ('n', 's', 'sys'); default: n, L, s.  Returns result dict."""
+    e.g. ('n', 's', 'sys'); default: n, L, s.  sys_as_s (C06): the system limiter carries the symbolic budget -s stands for in the reference
+    (cfg["s"] must be set, the chain has no user -s limiter): every invocation stays within the SYSTEM budget.  Returns result dict."""
     if order is None:
         order = tuple(k for k in ("n", "L", "s") if cfg[k])
     res = {"config": cfg, "args": nargs, "chain": list(order), "paths": 0, "violations": [], "panics": [], "unsupported": {}, "obligations": 0, "samples": []}
@@ -87,7 +88,8 @@ def explore(nargs, cfg, funcs, index, enums, order=None):
         limiters = VecObj()
         for k in order:
             limiters.items.append(BoxObj({"n": lambda: Struct("MaxArgsCommandSizeLimiter", [0, n_lim]), "L": lambda: Struct("MaxLinesCommandSizeLimiter", [1, l_lim]),
-                                          "s": lambda: Struct("MaxCharsCommandSizeLimiter", [0, s_lim]), "sys": lambda: Struct("MaxCharsCommandSizeLimiter", [0, SYS_BUDGET])}[k]()))
+                                          "s": lambda: Struct("MaxCharsCommandSizeLimiter", [0, s_lim]),
+                                          "sys": lambda: Struct("MaxCharsCommandSizeLimiter", [0, s_lim if sys_as_s else SYS_BUDGET])}[k]()))
         coll = Struct("LimiterCollection", [limiters])
         action = Enum("ExecAction", "Command", [VecObj([OsVal("cmd", cmdlen)])])
         outcome = None
